@@ -30,9 +30,12 @@ type caseC09 struct {
 
 func drawC09(t *rapid.T) caseC09 {
 	var c caseC09
-	c.Side = rapid.SampledFrom([]string{"write", "write", "read"}).Draw(t, "side")
+	c.Side = rapid.SampledFrom([]string{"write", "read"}).Draw(t, "side")
 	c.Fmt = rapid.SampledFrom([]string{"xz", "xz", "lzma", "lzma2"}).Draw(t, "fmt")
 	if c.Side == "read" {
+		// read-side runs are cheap: the classic format with its three
+		// termination modes gets half of them
+		c.Fmt = rapid.SampledFrom([]string{"xz", "lzma", "lzma", "lzma2"}).Draw(t, "rfmt")
 		s := gen.DrawSrc(t, c.Fmt, 3000, "lib", "lib", "ref", "liblzma")
 		cheapDict(&s)
 		c.Src = &s
@@ -145,7 +148,9 @@ func runWriteScenario(c caseC09, w io.Writer) (calls []callResult, data []byte, 
 			call("Write", func() error { _, err := xw.Write(p); return err })
 		}
 		call("Close", xw.Close)
-		call("Close2", func() error { xw.Close(); return nil })
+		if calls[len(calls)-1].err != nil {
+			call("Close2", func() error { xw.Close(); return nil })
+		}
 	case "lzma":
 		data = c.L1.Data.Expand()
 		var lw io.WriteCloser
@@ -166,7 +171,13 @@ func runWriteScenario(c caseC09, w io.Writer) (calls []callResult, data []byte, 
 			call("Write", func() error { _, err := lw.Write(p); return err })
 		}
 		call("Close", lw.Close)
-		call("Close2", func() error { lw.Close(); return nil })
+		if calls[len(calls)-1].err != nil {
+			// a Close issued after the failure must not panic; after a successful
+			// Close the stream is complete and nothing more is called (a second
+			// Close of lzma.Writer flushes the range coder again, which no
+			// property forbids)
+			call("Close2", func() error { lw.Close(); return nil })
+		}
 	case "lzma2":
 		type w2 interface {
 			io.WriteCloser
@@ -202,7 +213,15 @@ func runWriteScenario(c caseC09, w io.Writer) (calls []callResult, data []byte, 
 				closed = true
 			}
 		}
-		call("Close2", func() error { lw.Close(); return nil })
+		failed := false
+		for _, cr := range calls {
+			failed = failed || cr.err != nil
+		}
+		if !closed {
+			call("Close", lw.Close)
+		} else if failed {
+			call("Close2", func() error { lw.Close(); return nil })
+		}
 	}
 	return
 }
@@ -417,7 +436,20 @@ func checkC09Read(c caseC09, rec *ev.Rec) *ev.Failure {
 			}
 		}
 	}
-	rec.Class("side=read", "fmt="+c.Fmt)
+	rec.Class("side=read", "fmt="+c.Fmt, "read:"+c.Fmt+":origin="+c.Src.Origin)
+	if c.Fmt == "lzma" {
+		mode := c.Src.SizeMode
+		if c.Src.Origin == "lib" {
+			mode = 0
+			if c.Src.Cfg.SizeInHeader {
+				mode = 1
+				if c.Src.Cfg.EOSMarker {
+					mode = 2
+				}
+			}
+		}
+		rec.Class(fmt.Sprintf("read:lzma:termination=%d", mode)) // 0 marker, 1 size, 2 size+marker
+	}
 	rec.Sample("r"+c.Fmt, map[string]any{"side": "read", "fmt": c.Fmt, "origin": c.Src.Origin, "file_len": L, "piece": c.Piece})
 	return nil
 }
